@@ -2,7 +2,7 @@
 From Coq Require Import List String Ascii Bool.
 From O2o.Model Require Import Tok Syn Attr Ast Lookup Validate Expand Derive.
 From O2o.Gen Require Import Sites.
-From O2o.Lemmas Require Import Sites NoPanic PanicFree.
+From O2o.Lemmas Require Import Sites NoPanic PanicFree PanicReach.
 Import ListNotations.
 
 (* every panic!/unreachable!/todo!/unwrap()/expect()/index site of the (regenerated) source inventory is
@@ -59,3 +59,23 @@ Theorem C16_model_sites_inventoried :
   forallb (fun s => existsb (fun e => let '(_, _, _, _, _, _, site, _) := e in String.eqb s site) site_table) all_sites = true.
 Proof. vm_compute. reflexivity. Qed.
 Print Assumptions C16_model_sites_inventoried.
+
+(* ---- the guards, proved for every input ----
+   Of the 30 sites, the model can panic only at those the inventory classifies as known-reachable - each a recorded finding
+   (F-16c..m, matched by site).  All the others are unreachable for every input, back end and hash order: dead by the control flow
+   that surrounds them (4, 5, 7, 9, the ghost-action unwrap: the loops skip exactly the members whose rendering would reach them),
+   by an invariant of the descent (every child-path / sub-path index is in range; a ghost entry becomes a container only when its
+   path opens a new group, so its child path exists; child paths are non-empty because the grammar parses them with
+   parse_separated_nonempty), or because validation accepted the input (13 / 14: the error lists hold error instructions only;
+   err_ty.unwrap(): a fallible instruction has an error type; todo!() in struct_post_init: #[parent] on a variant is rejected).
+   Trying to prove the last validation-guarded site unreachable produced finding F-16m instead. *)
+Theorem C16_only_at_findings : forall be order order_tp x s,
+    (forall l, Permutation.Permutation (order l) l) ->
+    derive_model be order order_tp x = OPanic s -> In s known_reachable.
+Proof. exact model_panics_only_at_findings. Qed.
+Print Assumptions C16_only_at_findings.
+
+Theorem C16_known_reachable_list : forall s, In s known_reachable <->
+    In s ["1"; "2"; "6"; "8"; "10"; "11"; "12"; "15"; "16"; "17"; "18"; "19"; "todo"; "child_parents-unwrap"; "child_data-unwrap"; "field-ty-unwrap"; "sub_path-type-unwrap"]%string.
+Proof. intro s. symmetry. exact (reach_sites_are_known s). Qed.
+Print Assumptions C16_known_reachable_list.
